@@ -403,6 +403,12 @@ class Extractor:
                     self.assign(g.target, row, env2)
                     out.append(self.ev(e.elt, env2))
                 return ("tuple", tuple(out))
+            if all(isinstance(t_, ast.Name) for t_ in g.target.elts):
+                # rows of unknown number: the element expression over a symbolic row (each target is that row's i-th component)
+                env2 = dict(env)
+                for i_, t_ in enumerate(g.target.elts):
+                    env2[t_.id] = rebuild_node(("index", ("var", "$elt"), num(i_)))
+                return ("mapcomp", seq, self.ev(e.elt, env2))
             raise Unsupported("comprehension with tuple target over an unreadable sequence")
         if isinstance(e, (ast.ListComp, ast.GeneratorExp)) and len(e.generators) == 1 and e.generators[0].ifs and isinstance(e.generators[0].target, ast.Name):
             g = e.generators[0]
